@@ -316,6 +316,20 @@ func workerMain() {
 			}
 		}
 	}
+	// well-formed binary files whose triangle count sits on and around the multiples of 256 (block sizes of a
+	// chunked reader), added after seed C14-8
+	for _, nt := range []int{255, 256, 257, 511, 512, 513, 1024, 2560} {
+		fb := new(bytes.Buffer)
+		fb.Write(make([]byte, 80))
+		binary.Write(fb, binary.LittleEndian, uint32(nt))
+		for i := 0; i < nt; i++ {
+			binary.Write(fb, binary.LittleEndian, [12]float32{0, 0, 1, float32(i), 0, 0, float32(i) + 1, 0, 0.5, float32(i), 1, 0.25})
+			fb.Write([]byte{0, 0})
+		}
+		w.one(c, filepath.Join(work, "bin.stl"), fb.Bytes(), map[string]any{"kind": "well-formed-binary", "triangles": nt}, "binary-consistent-count", true)
+		states++
+		trans += 2
+	}
 	// one long single-line file (scanner token limit) and one long many-line file
 	long1 := []byte(pad + "vertex " + strings.Repeat("1", 70*1024) + " 2 3\n")
 	w.one(c, filepath.Join(work, "bin.stl"), long1, map[string]any{"kind": "single-70KiB-line"}, "long-line", true)
